@@ -20,10 +20,11 @@
 -/
 import Hv.Misc.NameLemmas
 import Hv.Misc.Routing
+import Hv.Misc.Stack
 import Hv.Basic.Verdict
 
 namespace Hv.C20
-open Hv.Name Hv.Routing
+open Hv.Name Hv.Routing Hv.Stack
 
 /-- island `i` has a route, and the routed server is the only configured one whose range contains it -/
 def RoutedToOne (servers : List Server) (i : Nat) : Prop :=
@@ -55,6 +56,15 @@ structure Holds (cfg : Cfg) : Prop where
   /-- every server configuration the SDK client accepts routes every island of 1..N to exactly one
       configured server -/
   routed : ∀ servers N, Accepted cfg servers N → ∀ i, 1 ≤ i → i ≤ N → RoutedToOne servers i
+  /-- END TO END (Hv/Misc/Stack.lean): the server's folder is a function of (name, request.IslandID); when the requests come
+      from SDK clients sharing the island count N — each RPC carries GetIslandID(N) of its name — every folder on disk
+      sits under the hash-derived island of its name, and no name has folders under two islands -/
+  endToEnd : ∀ N depth per reqs, (∀ r ∈ reqs, ReqTied (fun h => sdkIsland cfg h N) r) →
+      (∀ l ∈ (run cfg N depth per Srv.empty reqs).disk, Tied (fun h => sdkIsland cfg h N) l) ∧
+      OneFolderPerName (run cfg N depth per Srv.empty reqs).disk
+  /-- the on-disk location is a function of the name ALONE: whatever IslandID the requests carry, the server never keeps
+      one name under two islands -/
+  islandTied : ∀ N depth per reqs, (∀ r ∈ reqs, Req.hashBounded r) → OneFolderPerName (run cfg N depth per Srv.empty reqs).disk
 
 /-! ### island -/
 
@@ -247,9 +257,17 @@ theorem refutes_unvalidated (cfg : Cfg) (hv : cfg.validatesRanges = false) : ¬ 
 
 /-! ### the full statement for repaired facts -/
 
+/-- the server as it is: one name written under island 1 and, after the swamp closed, under island 2 is two swamps -/
+theorem refutes_island_unchecked (cfg : Cfg) (hc : cfg.srvChecksIsland = false) : ¬ Holds cfg := by
+  intro hh
+  exact unchecked_two_swamps cfg hc (hh.islandTied 1 0 1 twoIslands (by
+    intro r hm
+    simp only [twoIslands, List.mem_cons, List.not_mem_nil, or_false] at hm
+    rcases hm with e | e | e <;> subst e <;> simp [Req.hashBounded]))
+
 theorem holds_repaired (cfg : Cfg) (hg : cfg.goodIsland = true) (hc : cfg.clampStart = true)
     (hs : cfg.rejectsSlash = true) (hv : cfg.validatesRanges = true) (hk : cfg.cacheKeyedByN = true)
-    (hu : cfg.unroutedIsError = true) (hpc : cfg.pathCacheKeyedByArgs = true) : Holds cfg :=
+    (hu : cfg.unroutedIsError = true) (hpc : cfg.pathCacheKeyedByArgs = true) (hci : cfg.srvChecksIsland = true) : Holds cfg :=
   ⟨island_range cfg hg, island_range_server cfg hg, island_sdk_eq_server cfg hg,
    fun h depth per _ => path_no_panic_clamped cfg hc h depth per,
    fun a b va vb hne => distinct_names_distinct_paths a b (va hs) (vb hs) hne,
@@ -257,7 +275,9 @@ theorem holds_repaired (cfg : Cfg) (hg : cfg.goodIsland = true) (hc : cfg.clampS
    fun h N1 N2 h1 h2 b1 b2 => second_call_sound cfg hg hk h N1 N2 h1 h2 b1 b2,
    fun h i1 d1 p1 i2 d2 p2 hs => second_location_sound cfg hpc h i1 d1 p1 i2 d2 p2 hs,
    unrouted_is_error cfg hu,
-   fun servers N ha i h1 hN => route_partition servers N (ha hv) i h1 hN⟩
+   fun servers N ha i h1 hN => route_partition servers N (ha hv) i h1 hN,
+   fun N depth per reqs hr => sdk_requests_one_folder cfg N depth per reqs hr,
+   fun N depth per reqs hb => checked_requests_one_folder cfg hci N depth per reqs hb⟩
 
 /-- What holds for the code as it is. -/
 structure HoldsPartial (cfg : Cfg) : Prop where
@@ -271,6 +291,10 @@ structure HoldsPartial (cfg : Cfg) : Prop where
   locInj : ∀ h1 h2 i1 i2 (depth per : Int) l, h1 < 2 ^ 64 → h2 < 2 ^ 64 →
       location cfg h1 i1 depth per = some l → location cfg h2 i2 depth per = some l → h1 = h2 ∧ i1 = i2
   routedWhenPartition : ∀ servers N, Partition servers N → ∀ i, 1 ≤ i → i ≤ N → RoutedToOne servers i
+  /-- the end-to-end clause holds as it stands: SDK requests alone never put one name under two islands -/
+  endToEnd : ∀ N depth per reqs, (∀ r ∈ reqs, ReqTied (fun h => sdkIsland cfg h N) r) →
+      (∀ l ∈ (run cfg N depth per Srv.empty reqs).disk, Tied (fun h => sdkIsland cfg h N) l) ∧
+      OneFolderPerName (run cfg N depth per Srv.empty reqs).disk
 
 theorem holds_partial (cfg : Cfg) (hg : cfg.goodIsland = true) : HoldsPartial cfg :=
   ⟨island_range cfg hg, island_range_server cfg hg, island_sdk_eq_server cfg hg,
@@ -278,16 +302,17 @@ theorem holds_partial (cfg : Cfg) (hg : cfg.goodIsland = true) : HoldsPartial cf
    fun hd h => path_no_panic_default cfg hd h,
    distinct_names_distinct_paths,
    fun h1 h2 i1 i2 depth per l b1 b2 e1 e2 => location_inj cfg h1 h2 i1 i2 depth per l b1 b2 e1 e2,
-   route_partition⟩
+   route_partition,
+   fun N depth per reqs hr => sdk_requests_one_folder cfg N depth per reqs hr⟩
 
 /-! ### non-vacuity -/
 
 /-- the facts of the tree before the clamp repair (`start` not clamped) -/
-def current : Cfg := ⟨true, true, 16, false, 2, false, false, 1, 1000, false, false, false, false⟩
+def current : Cfg := ⟨true, true, 16, false, 2, false, false, 1, 1000, false, false, false, false, false⟩
 /-- the facts after it: only the separator finding is left -/
 def clamped : Cfg := { current with clampStart := true }
 /-- repaired facts -/
-def repaired : Cfg := { current with clampStart := true, rejectsSlash := true, validatesRanges := true, cacheKeyedByN := true, unroutedIsError := true, pathCacheKeyedByArgs := true }
+def repaired : Cfg := { current with clampStart := true, rejectsSlash := true, validatesRanges := true, cacheKeyedByN := true, unroutedIsError := true, pathCacheKeyedByArgs := true, srvChecksIsland := true }
 
 example : current.goodIsland = true ∧ repaired.goodIsland = true := by decide
 /-- hash 0xd24ec4f1a98c6e5b, N = 1000: island 956 on both sides -/
@@ -306,6 +331,12 @@ example : hashedLevels clamped 0xd24ec4f1a98c6e5b 6 70000 =
     hashedLevels clamped 0xf 2 1 = some [[15], []] := by decide
 
 /-! ### witnesses for the code as it is -/
+
+/-- the same name (hash 0xd24ec4f1a98c6e5b) written with IslandID 956 and, once the swamp has closed, with IslandID 7:
+    two folders — and while the swamp is still open the second request is served from the first folder -/
+theorem same_name_two_islands :
+    (run current 1000 3 2000 Srv.empty [.data 956 0xd24ec4f1a98c6e5b, .closeAll, .data 7 0xd24ec4f1a98c6e5b]).disk.map (·.island) = [7, 956] ∧
+    (run current 1000 3 2000 Srv.empty [.data 956 0xd24ec4f1a98c6e5b, .data 7 0xd24ec4f1a98c6e5b]).disk.map (·.island) = [956] := by decide
 
 /-- asked for island 1 and then for island 2, the same name object still answers with the island-1 location -/
 theorem stale_path_witness : secondLocation current 0xd24ec4f1a98c6e5b 1 1 1000 2 1 1000 = location current 0xd24ec4f1a98c6e5b 1 1 1000 ∧
@@ -402,11 +433,15 @@ structure Facts where
   islandCacheKeyedByN : Tri    -- GetIslandID / GetFolderNumber return the memoised island only for the same N
   pathCacheKeyedByArgs : Tri   -- GetFullHashPath returns the memoised path only for the same arguments
   unroutedReturnsError : Tri   -- GetServiceClient(AndHost): an island without a route yields an error-returning client, not nil
+  rpcIslandFromName : Tri      -- every `IslandID:` the SDK puts into a request is <name>.GetIslandID(h.client.GetAllIslands()) of the request's own swamp name
+  serverPathPerRequest : Tri   -- hydra computes GetFullHashPath(data root, islandID parameter, depth, per-level) directly in IsExistSwamp and createNewSwamp (no memo keyed by the name)
+  gatewayThreeParts : Tri      -- the gateway refuses names that do not have exactly three non-empty parts
+  serverChecksIsland : Tri     -- no: nothing under app/ derives an island from a name; the gateway hands request.IslandID to hydra as it is
   deriving Repr
 
 def cfgOf (f : Facts) : Cfg :=
   ⟨f.sdkPlusOne.isYes, f.srvPlusOne.isYes, f.srvBits.getD 0, f.hexVerb.isNo, f.cplMin.getD 0,
-   f.sliceClampsStart.isYes, f.ctorsRejectSlash.isYes, f.defDepth.getD 0, f.defPer.getD 0, f.routeValidatesRanges.isYes, f.islandCacheKeyedByN.isYes, f.pathCacheKeyedByArgs.isYes, f.unroutedReturnsError.isYes⟩
+   f.sliceClampsStart.isYes, f.ctorsRejectSlash.isYes, f.defDepth.getD 0, f.defPer.getD 0, f.routeValidatesRanges.isYes, f.islandCacheKeyedByN.isYes, f.pathCacheKeyedByArgs.isYes, f.unroutedReturnsError.isYes, f.serverChecksIsland.isYes⟩
 
 /-- every structural fact the model relies on was recognised -/
 def recognised (f : Facts) : Bool :=
@@ -414,7 +449,8 @@ def recognised (f : Facts) : Bool :=
   f.hexVerb != .unknown && f.folderVerb == .yes && f.sliceClampsEnd == .yes && f.loadFixedIndices == .yes &&
   f.sdkPlusOne != .unknown && f.srvPlusOne != .unknown && f.sliceClampsStart != .unknown &&
   f.ctorsRejectSlash != .unknown && f.routeLastWins == .yes && f.routeLookupByIsland == .yes &&
-  f.routeValidatesRanges != .unknown && f.islandCacheKeyedByN != .unknown && f.unroutedReturnsError != .unknown && f.pathCacheKeyedByArgs != .unknown && f.srvBits.isSome && f.cplMin.isSome && f.defDepth.isSome && f.defPer.isSome
+  f.routeValidatesRanges != .unknown && f.islandCacheKeyedByN != .unknown && f.unroutedReturnsError != .unknown && f.pathCacheKeyedByArgs != .unknown &&
+  f.rpcIslandFromName == .yes && f.serverPathPerRequest == .yes && f.gatewayThreeParts == .yes && f.serverChecksIsland != .unknown && f.srvBits.isSome && f.cplMin.isSome && f.defDepth.isSome && f.defPer.isSome
 
 def findings (f : Facts) : List String :=
   (if (cfgOf f).sdkPlusOne && (cfgOf f).srvPlusOne then [] else ["C20-island-off-by-one"]) ++
@@ -424,13 +460,14 @@ def findings (f : Facts) : List String :=
   (if (cfgOf f).validatesRanges then [] else ["C20-routing-unvalidated"]) ++
   (if (cfgOf f).cacheKeyedByN then [] else ["C20-island-cache-stale"]) ++
   (if (cfgOf f).unroutedIsError then [] else ["C20-unrouted-island-panics"]) ++
-  (if (cfgOf f).pathCacheKeyedByArgs then [] else ["C20-path-cache-stale"])
+  (if (cfgOf f).pathCacheKeyedByArgs then [] else ["C20-path-cache-stale"]) ++
+  (if (cfgOf f).srvChecksIsland then [] else ["C20-island-unvalidated"])
 
 def classify (f : Facts) : Verdict :=
-  if !recognised f then .undetermined "a pattern of name.go (server or SDK) was not recognised"
+  if !recognised f then .undetermined "a structural pattern (name.go of server or SDK, the SDK request literals, hydra.go, the gateway) was not recognised or is not the modelled one"
   else if (cfgOf f).srvBits != 16 then .undetermined "server island width is not 16 bits"
   else if (cfgOf f).sdkPlusOne && (cfgOf f).srvPlusOne && (cfgOf f).clampStart && (cfgOf f).rejectsSlash &&
-      (cfgOf f).validatesRanges && (cfgOf f).cacheKeyedByN && (cfgOf f).unroutedIsError && (cfgOf f).pathCacheKeyedByArgs then .holds
+      (cfgOf f).validatesRanges && (cfgOf f).cacheKeyedByN && (cfgOf f).unroutedIsError && (cfgOf f).pathCacheKeyedByArgs && (cfgOf f).srvChecksIsland then .holds
   else .violated (findings f)
 
 theorem classify_sound (f : Facts) :
@@ -445,8 +482,8 @@ theorem classify_sound (f : Facts) :
       split
       · rename_i h
         simp only [Bool.and_eq_true] at h
-        obtain ⟨⟨⟨⟨⟨⟨⟨h1, h2⟩, h3⟩, h4⟩, h5⟩, h6⟩, h7⟩, h8⟩ := h
-        exact holds_repaired _ (by simp [Cfg.goodIsland, h1, h2, hb16]) h3 h4 h5 h6 h7 h8
+        obtain ⟨⟨⟨⟨⟨⟨⟨⟨h1, h2⟩, h3⟩, h4⟩, h5⟩, h6⟩, h7⟩, h8⟩, h9⟩ := h
+        exact holds_repaired _ (by simp [Cfg.goodIsland, h1, h2, hb16]) h3 h4 h5 h6 h7 h8 h9
       · rename_i h
         refine ⟨?_, fun hg => holds_partial _ hg⟩
         simp only [Bool.and_eq_true, not_and, Bool.not_eq_true] at h
@@ -470,6 +507,9 @@ theorem classify_sound (f : Facts) :
                   | true =>
                     cases h7 : (cfgOf f).unroutedIsError with
                     | false => exact refutes_unrouted_nil _ h7
-                    | true => exact refutes_stale_path _ (h ⟨⟨⟨⟨⟨⟨h1, h2⟩, h3⟩, h4⟩, h5⟩, h6⟩, h7⟩)
+                    | true =>
+                      cases h8 : (cfgOf f).pathCacheKeyedByArgs with
+                      | false => exact refutes_stale_path _ h8
+                      | true => exact refutes_island_unchecked _ (h ⟨⟨⟨⟨⟨⟨⟨h1, h2⟩, h3⟩, h4⟩, h5⟩, h6⟩, h7⟩, h8⟩)
 
 end Hv.C20
